@@ -8,16 +8,18 @@
 From ZC Require Import Model.BlockGen Proof.BlockGenUtil Proof.BlockGen Corr.BlockGen.
 Open Scope Z_scope.
 
-(* Hypotheses, spelled out:
-   [bg_pool_ok pool]   every pool transaction passed admission (bt_valid: hash, signature, ids), none
-                       calls a function whose NAME is one of the generator's built-in names, and every
-                       estimated cost is in [0, 2^62);
-   [bg_bis_ok cfg pool bis bic]  the cost limit is below 2^62 and not below the total cost [bic] of the
+(* The model is the tree with the fixes 2f9cdcc (pool transactions named like a built-in are skipped)
+   and 3df99c9 (cost comparisons against the remaining budget).  Before them the statement was false
+   for pools with a built-in function name or a math.MaxInt cost; it now holds for them too.
+   Hypotheses, spelled out:
+   [bg_pool_ok pool]   every pool transaction passed admission (bt_valid: hash, signature, ids) and every
+                       estimated cost is a non-negative Go int, i.e. in [0, 2^63) (math.MaxInt included);
+   [bg_bis_ok cfg pool bis bic]  the cost limit is a Go int not below the total cost [bic] of the
                        built-in transactions, which are valid, dated with the block, pairwise different in
                        hash and name and different in hash from every pool transaction. *)
 
-(* Main theorem: for every pool (any order, any mix of valid/past/future/duplicate nonces, any costs
-   in range) and every previous state, the block the generator returns is accepted by a verifier
+(* Main theorem (full statement): for every admitted pool (any order, any mix of valid/past/future/
+   duplicate nonces, any function names, any costs up to math.MaxInt) and every previous state, the block the generator returns is accepted by a verifier
    that starts from the same state, and the verifier recomputes the same root, outputs and change
    count. *)
 Theorem C45_generated_block_verifies :
@@ -49,7 +51,7 @@ Theorem C45_block_shape :
          cfg st0 pool bis b,
     bg_generate state apply snonce root chg cfg st0 pool bis = GenOk b ->
     exists pp bp, bk_txns b = pp ++ bp /\ NoDup (map bt_hash (map fst pp)) /\
-                  Forall (fun t => In t pool) (map fst pp) /\ bg_bipart (map fst bp) bis.
+                  Forall (fun t => In t pool /\ bt_fname t = 0) (map fst pp) /\ bg_bipart (map fst bp) bis.
 Proof. exact bg_no_dup_pool_part. Qed.
 Print Assumptions C45_block_shape.
 
@@ -69,7 +71,7 @@ Theorem C45_nonces_consecutive :
 Proof. exact bg_nonces_consecutive. Qed.
 Print Assumptions C45_nonces_consecutive.
 
-(* The exact (mathematical) sum of the costs stays within the limit while costs are below 2^62. *)
+(* The exact (mathematical) sum of the costs stays within the limit, for all non-negative int costs. *)
 Theorem C45_cost_le_limit :
   forall (state : Type) (apply : state -> bg_txn -> option (state * bg_out))
          (snonce : state -> Z -> option Z) (root chg : state -> Z)
@@ -86,24 +88,12 @@ Theorem C45_builtin_at_most_once :
          (snonce : state -> Z -> option Z) (root chg : state -> Z)
          cfg st0 pool bis b,
     bg_generate state apply snonce root chg cfg st0 pool bis = GenOk b ->
-    (forall t, In t pool -> bt_fname t = 0) -> NoDup (bg_builtin_names bis) ->
+    NoDup (bg_builtin_names bis) ->
     forall k, k <> 0 -> (bg_count k (map bt_fname (map fst (bk_txns b))) <= 1)%nat.
 Proof. exact bg_builtin_at_most_once. Qed.
 Print Assumptions C45_builtin_at_most_once.
 
-(* ---------- where the full statement fails (the model has the code's behaviour) ---------- *)
-
-(* Full statement 1: as the main theorem but WITHOUT requiring that pool transactions avoid the
-   built-in function names. *)
-Definition C45_full_statement : Prop :=
-  forall (state : Type) (apply : state -> bg_txn -> option (state * bg_out))
-         (snonce : state -> Z -> option Z) (root chg : state -> Z)
-         cfg st0 pool bis bic b,
-    (forall t, In t pool -> bt_valid t = true) -> bg_pool_costs_ok pool ->
-    bg_bis_ok cfg pool bis bic ->
-    bg_generate state apply snonce root chg cfg st0 pool bis = GenOk b ->
-    bg_verify state apply root chg cfg st0 b = VerOk (bk_root b) (map snd (bk_txns b)) (bk_chg b).
-
+(* ---------- the former counterexamples (before 2f9cdcc / 3df99c9) now verify ---------- *)
 Definition c45_cfg : bg_cfg :=
   {| bc_maxcost := 100; bc_maxbytes := 1000000; bc_tol := 600; bc_bdate := 5000; bc_miner := 999 |}.
 Definition c45_txn (h c n cost fn kind v to : Z) : bg_txn :=
@@ -111,64 +101,31 @@ Definition c45_txn (h c n cost fn kind v to : Z) : bg_txn :=
      bt_cost := Some cost; bt_size := 10; bt_fname := fn; bt_valid := true; bt_kind := kind;
      bt_value := v; bt_to := to |}.
 
-(* two admitted contract calls named "payFees" (name 1) from two clients: both are included, every
-   verifier rejects the block (duplicate built-in) *)
-Definition c45_pool_named : list bg_txn := [c45_txn 0 1 1 5 1 1 0 0; c45_txn 1 2 1 5 1 1 0 0].
-
-Theorem C45_full_statement_refuted : ~ C45_full_statement.
-Proof.
-  intro H.
-  specialize (H bgc_state bgc_apply bgc_snonce (fun _ => 0) (fun _ => 0) c45_cfg [] c45_pool_named [] 0).
-  assert (Hv : forall t, In t c45_pool_named -> bt_valid t = true).
-  { intros t [<-|[<-|[]]]; reflexivity. }
-  assert (Hc : bg_pool_costs_ok c45_pool_named).
-  { intros t c [<-|[<-|[]]] Hc; inversion Hc; lia. }
-  assert (Hb : bg_bis_ok c45_cfg c45_pool_named [] 0).
-  { constructor; simpl; try constructor; try lia. }
-  destruct (bg_generate bgc_state bgc_apply bgc_snonce (fun _ => 0) (fun _ => 0) c45_cfg [] c45_pool_named [])
-    as [b| |] eqn:E; try (vm_compute in E; discriminate).
-  specialize (H b Hv Hc Hb eq_refl).
-  vm_compute in E. inversion E; subst. vm_compute in H. discriminate.
-Qed.
-Print Assumptions C45_full_statement_refuted.
-
-(* Full statement 2: the cost bound WITHOUT the 2^62 range on costs (a call of a function that is
-   missing from the contract's cost table is estimated at math.MaxInt). *)
-Definition C45_cost_full_statement : Prop :=
-  forall (state : Type) (apply : state -> bg_txn -> option (state * bg_out))
-         (snonce : state -> Z -> option Z) (root chg : state -> Z)
-         cfg st0 pool b,
-    (forall t c, In t pool -> bt_cost t = Some c -> 0 <= c < 2 ^ 63) ->
-    0 <= bc_maxcost cfg < 2 ^ 62 ->
-    bg_generate state apply snonce root chg cfg st0 pool [] = GenOk b ->
-    exists s, bg_sum_exact (map fst (bk_txns b)) = Some s /\ s <= bc_maxcost cfg.
-
+(* two admitted contract calls named "payFees" (name 1), one ordinary call: the named ones are left out *)
+Definition c45_pool_named : list bg_txn :=
+  [c45_txn 0 1 1 5 1 1 0 0; c45_txn 1 2 1 5 1 1 0 0; c45_txn 2 3 1 5 0 1 0 0].
+(* a call of a function missing from the cost table (cost math.MaxInt) between ordinary calls *)
 Definition c45_pool_maxint : list bg_txn :=
   [c45_txn 0 1 1 10 0 1 0 0; c45_txn 1 1 2 (2 ^ 63 - 1) 0 3 0 0;
-   c45_txn 2 2 1 90 0 1 0 0; c45_txn 3 2 2 90 0 1 0 0].
+   c45_txn 2 2 1 80 0 1 0 0; c45_txn 3 2 2 80 0 1 0 0].
 
-Theorem C45_cost_full_statement_refuted : ~ C45_cost_full_statement.
-Proof.
-  intro H.
-  specialize (H bgc_state bgc_apply bgc_snonce (fun _ => 0) (fun _ => 0) c45_cfg [] c45_pool_maxint).
-  destruct (bg_generate bgc_state bgc_apply bgc_snonce (fun _ => 0) (fun _ => 0) c45_cfg [] c45_pool_maxint [])
-    as [b| |] eqn:E; try (vm_compute in E; discriminate).
-  assert (Hc : forall t c, In t c45_pool_maxint -> bt_cost t = Some c -> 0 <= c < 2 ^ 63).
-  { intros t c [<-|[<-|[<-|[<-|[]]]]] Hc; inversion Hc; lia. }
-  destruct (H b Hc ltac:(simpl; lia) eq_refl) as [s [Hs Hle]].
-  vm_compute in E. inversion E; subst. vm_compute in Hs. inversion Hs; subst.
-  vm_compute in Hle. apply Hle. reflexivity.
-Qed.
-Print Assumptions C45_cost_full_statement_refuted.
-
-(* the block with the MaxInt-cost call is nevertheless accepted by the verifier (both sums wrap) *)
-Example C45_maxint_block_accepted :
-  match bg_generate bgc_state bgc_apply bgc_snonce (fun _ => 0) (fun _ => 0) c45_cfg [] c45_pool_maxint [] with
-  | GenOk b => map (fun p => bt_hash (fst p)) (bk_txns b) = [0; 1; 2; 3] /\
-               exists r o c, bg_verify bgc_state bgc_apply (fun _ => 0) (fun _ => 0) c45_cfg [] b = VerOk r o c
+Example C45_named_pool_verifies :
+  match bg_generate bgc_state bgc_apply bgc_snonce (fun _ => 0) (fun _ => 0) c45_cfg [] c45_pool_named [] with
+  | GenOk b => map (fun p => bt_hash (fst p)) (bk_txns b) = [2] /\
+               bg_verify bgc_state bgc_apply (fun _ => 0) (fun _ => 0) c45_cfg [] b
+               = VerOk (bk_root b) (map snd (bk_txns b)) (bk_chg b)
   | _ => False
   end.
-Proof. vm_compute. split; [reflexivity|]. do 3 eexists. reflexivity. Qed.
+Proof. vm_compute. split; reflexivity. Qed.
+
+Example C45_maxint_pool_verifies :
+  match bg_generate bgc_state bgc_apply bgc_snonce (fun _ => 0) (fun _ => 0) c45_cfg [] c45_pool_maxint [] with
+  | GenOk b => map (fun p => bt_hash (fst p)) (bk_txns b) = [0; 2] /\
+               bg_verify bgc_state bgc_apply (fun _ => 0) (fun _ => 0) c45_cfg [] b
+               = VerOk (bk_root b) (map snd (bk_txns b)) (bk_chg b)
+  | _ => False
+  end.
+Proof. vm_compute. split; reflexivity. Qed.
 
 (* ---------- non-vacuity ---------- *)
 (* accounts: client 1 (nonce 0, balance 100), client 2 (nonce 3, balance 5).  Pool (iteration
@@ -185,7 +142,6 @@ Example C45_example_hypotheses : bg_pool_ok c45_pool /\ bg_bis_ok c45_cfg c45_po
 Proof.
   split.
   - constructor.
-    + intros t Ht. repeat (destruct Ht as [<-|Ht]; [reflexivity|]). destruct Ht.
     + intros t Ht. repeat (destruct Ht as [<-|Ht]; [reflexivity|]). destruct Ht.
     + intros t c Ht Hc. repeat (destruct Ht as [<-|Ht]; [inversion Hc; lia|]). destruct Ht.
   - constructor; simpl; try lia; try reflexivity.
